@@ -673,30 +673,34 @@ type-check, an entry point is missing or something is `unresolved`, the lists pr
 (UNKNOWN: evidence note + amplified metamorphic search, no violation); an access outside the
 allowed list REFUTES the fact and breaks `observer_accesses_allowed`. -/
 
-/-- Every access the debugger's evaluator side may make, with its justification:
-* `scope:Parent`, `scope:Name` — navigation / name of a scope (getters of `varsScope`);
-* `scope:ToJSONObject` — the snapshot of a scope's values for `describe` (takes the scope's read
-  lock, marshals copies);
-* `ast:Equals` — sanity comparison of the step-in and step-out call nodes;
-* `ext:fmt.Sprintf[ast]` — the text of that sanity assertion prints the call stack;
-* `debugger:…` — the evaluator hands node, scope and thread id to the debugger interface
-  (`VisitState`, `VisitStepInState`, `VisitStepOutState`) and the provider's mutex table / thread pool
-  references (`SetLockingState`, `SetThreadPool`, stored once, read by `lockstate`); a sink execution tells
-  the debugger that the worker thread finished it (`RecordThreadFinished`: debugger data only).
-NOT allowed (any of these refutes the fact): `scope:SetValue`, `scope:SetLocalValue`, `scope:NewChild`
-(appends a child to the program's scope tree), `scope:Clear`, `scopepkg:*`, any `logger:*`, any
-`runtime:*` (evaluation), `astwrite:*`, `rtwrite:*`, `otherwrite:*`, `pkgvarwrite:*`. -/
-def allowedAccesses : List String :=
-  ["scope:Parent", "scope:Name", "scope:ToJSONObject", "ast:Equals", "ext:fmt.Sprintf[ast]",
-   "debugger:VisitState", "debugger:VisitStepInState", "debugger:VisitStepOutState",
-   "debugger:SetLockingState", "debugger:SetThreadPool", "debugger:RecordThreadFinished"]
+/-- Accesses that MUTATE the program's world or run its code — any of these REFUTES the fact:
+* `scope:SetValue`, `scope:SetLocalValue`, `scope:Clear`, `scope:NewChild` (appends a child to the program's
+  scope tree), any function of package `scope` (`scopepkg`);
+* any method of a logger (`logger`), any method of a runtime component (`runtime`: evaluation);
+* any assignment to a field of an AST node / runtime component / foreign struct or to a package variable
+  (`astwrite`, `rtwrite`, `otherwrite`, `pkgvarwrite`). -/
+def deniedAccess (cat detail : String) : Bool :=
+  cat == "scopepkg" || cat == "logger" || cat == "runtime" || cat == "astwrite" || cat == "rtwrite" ||
+  cat == "otherwrite" || cat == "pkgvarwrite" ||
+  (cat == "scope" && (detail == "SetValue" || detail == "SetLocalValue" || detail == "Clear" || detail == "NewChild"))
 
-/-- **Obligation over the regenerated fact (a), (b), (c).** The evaluator side of the debugger
-touches the program's scopes only through `Parent` / `Name` / `ToJSONObject`, calls no logger
-method, evaluates nothing, and assigns no field of an AST node, a runtime component, any foreign
-struct or a package variable. -/
+/-- Accesses ESTABLISHED as observations (informative; `props/C15.py` reports every access that is neither
+denied nor in this list as "not established" — an evidence note and an amplified metamorphic search, never
+a violation): scope navigation / name / snapshot (`Parent`, `Name`, `ToJSONObject`), the sanity comparison of
+the call nodes (`ast:Equals`) and its assertion text (`ext:fmt.Sprintf[ast]`), the calls through the debugger
+interface. -/
+def establishedReads : List (String × String) :=
+  [("scope", "Parent"), ("scope", "Name"), ("scope", "ToJSONObject"), ("ast", "Equals"), ("ext", "fmt.Sprintf[ast]"),
+   ("debugger", "VisitState"), ("debugger", "VisitStepInState"), ("debugger", "VisitStepOutState"),
+   ("debugger", "SetLockingState"), ("debugger", "SetThreadPool"), ("debugger", "RecordThreadFinished")]
+
+/-- **Obligation over the regenerated fact (a), (b), (c).** The evaluator side of the debugger (functions
+reachable from the visit functions, and the evaluator's debugger-attached regions) makes NO access of a
+denied kind: no mutating scope method, no logger call, no evaluation, no assignment to AST nodes, runtime
+components, foreign structs or package variables. Accesses of other kinds (read-only methods, formatting
+functions) do not affect this obligation. -/
 theorem observer_accesses_allowed :
-    Ecal.Gen.C15.observerAccesses.all (fun p => allowedAccesses.contains p.2) = true := by decide
+    Ecal.Gen.C15.observerAccesses.all (fun p => !deniedAccess p.2.1 p.2.2) = true := by decide
 
 /-- **Obligation (d), evaluator side only.** The fields of `ecalDebugger` itself are written under its
 write lock (exception: the `lastVisit` time stamp, under the read lock; only `StopThreads`' idle wait
